@@ -2,6 +2,8 @@
 
 package column
 
+import "github.com/kelindar/column/commit"
+
 func init() {
 	vndRegister("VerifC01History", VerifC01History)
 }
@@ -33,4 +35,65 @@ func VerifC01History() {
 		w.check(w.c, "after commit")
 	}
 	w.observe(w.c)
+}
+
+func init() {
+	vndRegister("VerifC01LateColumn", VerifC01LateColumn)
+	vndRegister("VerifC08InFlightSnapshot", VerifC08InFlightSnapshot)
+}
+
+// VerifC01LateColumn: a column of the kind under test is created AFTER rows exist in several
+// blocks (sparse layouts included, Capacity smaller than the highest offset); every row then
+// accepts a value in it and reads it back, rows that were not written read absent.
+func VerifC01LateColumn() {
+	kind := vPickKind(vndParam("kinds"))
+	w := vNewWorld(vndParam("cap"), vInt64, vndParam("fam"), Options{})
+	vndAssert(w.c.CreateColumn("late", vMakeColumn(kind)) == nil, "CreateColumn failed")
+	var cells [vMaxRows]vCell
+	for i := 0; i < w.n; i++ {
+		w.c.QueryAt(w.off[i], func(r Row) error {
+			vSameCell(vGet(r, kind, "late"), vCell{}, kind, "late column before any write")
+			return nil
+		})
+		if vndChoice("write", 2) == 1 {
+			num, str := vInput(kind, 1)
+			w.c.QueryAt(w.off[i], func(r Row) error {
+				vSet(r, kind, "late", num, str)
+				return nil
+			})
+			cells[i] = vModelSet(kind, num, str)
+		}
+	}
+	for i := 0; i < w.n; i++ {
+		w.c.QueryAt(w.off[i], func(r Row) error {
+			vSameCell(vGet(r, kind, "late"), cells[i], kind, "late column")
+			return nil
+		})
+	}
+	w.check(w.c, "other columns")
+	vndObserve("n", uint64(w.n))
+}
+
+// VerifC08InFlightSnapshot: the single-threaded corner of C08 - Snapshot is called from inside an
+// insert callback whose reservation extended the collection into a block that no commit has
+// created yet (block 0 completely full). Snapshot must neither fail nor panic.
+func VerifC08InFlightSnapshot() {
+	c := NewCollection(Options{Capacity: vndParam("cap")})
+	c.CreateColumn("a", ForInt64())
+	// P-dense: block 0 is full (through the real commit path for the capacity, then the fill bits)
+	vSeedRows(c, []uint32{0})
+	c.fill.Grow(16383)
+	for i := 0; i < 256; i++ {
+		c.fill[i] = ^uint64(0)
+	}
+	c.count = 16384
+	var serr error
+	off, err := c.Insert(func(r Row) error {
+		r.SetInt64("a", 1)
+		serr = c.Snapshot(&commit.VBuf{})
+		return nil
+	})
+	vndAssert(err == nil && off == 16384, "insert into the new block")
+	vndAssert(serr == nil, "Snapshot failed while an insert was in flight")
+	vndObserve("off", uint64(off))
 }
